@@ -372,3 +372,41 @@ class Watchdog:
 
 def short_tb() -> str:
     return traceback.format_exc()[-1200:]
+
+
+def run_suite(monitors: str, tests: list[str], rec: "Rec", nworkers: int = 8, timeout: int = 1500) -> None:
+    """run the repository's own tests with the runtime monitors attached (vf.pytest_plugin) and fold what the monitors
+    observed into `rec`.  The suite must still pass with the monitors on (they record, never raise)."""
+    import glob
+    evdir = tempfile.mkdtemp(prefix="vf_ev_")
+    env = worker_env()
+    env["VF_MONITORS"] = monitors
+    env["VF_EVENT_DIR"] = evdir
+    cmd = [PY, "-m", "pytest", "-q", "-p", "no:cacheprovider", "-p", "vf.pytest_plugin", "-n", str(nworkers)] + tests
+    try:
+        p = subprocess.run(cmd, cwd=REPO, env=env, timeout=timeout, capture_output=True, text=True, check=False)
+        tail = (p.stdout.strip().splitlines() or [""])[-1]
+        rec.note(f"suite under monitors [{monitors}] {' '.join(tests)[:80]}: {tail[:120]}")
+        if " failed" in tail or " error" in tail:
+            rec.inconc("repository tests do not pass with the monitors attached (monitor perturbs the run?)", {"tail": tail, "out": p.stdout[-800:]})
+        for f in glob.glob(os.path.join(evdir, "*.json")):
+            with open(f) as fh:
+                st = json.load(fh)
+            for k, n in st.get("counts", {}).items():
+                rec.hit("suite:" + k, n)
+            for v in st.get("violations", []):
+                if v.get("property") in monitors.split(","):
+                    rec.violation(v["key"], "during the repository's test run: " + v["what"], v.get("case"))
+            for s_ in st.get("samples", []):
+                if s_.get("property") in monitors.split(",") and len(rec.samples) < MAX_SAMPLES:
+                    rec.sample(dict(s_, workload="repository test-suite under monitor"))
+            for n_ in st.get("notes", [])[:2]:
+                rec.note(n_[:200])
+    except subprocess.TimeoutExpired:
+        rec.inconc("watchdog: monitored test-suite run exceeded the wall-clock limit")
+    finally:
+        shutil.rmtree(evdir, ignore_errors=True)
+
+
+SUITE_QUICK = ["test/core", "test/dynamics", "test/optics", "test/electricity/vector", "test/kinematics", "test/gravity"]
+SUITE_FULL = ["test"]
